@@ -90,8 +90,12 @@ class FaultPlan:
         self.fired = []
 
     def take(self, op, name=None):
+        """op '*' in a rule = any request except the account authorisation; 'skip': n lets the first n matching requests pass"""
         for r in self.rules:
-            if r.get('count', 0) > 0 and r['op'] == op and r.get('name', name) == name:
+            if r.get('count', 0) > 0 and (r['op'] == op or (r['op'] == '*' and op != 'authorize')) and r.get('name', name) == name:
+                if r.get('skip', 0) > 0:
+                    r['skip'] -= 1
+                    continue
                 r['count'] -= 1
                 self.fired.append((op, r['kind']))
                 return r
@@ -263,9 +267,11 @@ class FakeB2(_FakeBase):
     DL = 'https://dl.fake-b2.test'
     POD = 'https://pod.fake-b2.test'
 
-    def __init__(self, bucket_name, *, synthetic_next=False, **ka):
+    def __init__(self, bucket_name, *, synthetic_next=False, restricted=False, authorize_delay=0, **ka):
         super().__init__(**ka)
         self.bucket_name = bucket_name
+        self.restricted = restricted              # the application key is restricted to this bucket (allowed.bucketId / bucketName set)
+        self.authorize_delay = authorize_delay    # event-loop turns b2_authorize_account takes to answer
         self.bucket_id = 'bkt-' + hashlib.sha1(bucket_name.encode()).hexdigest()[:10]
         self.versions = {}            # name -> list of ('upload', bytes) | ('hide',), newest last
         self.tokens = set()
@@ -338,11 +344,15 @@ class FakeB2(_FakeBase):
         after = kind is not None and kind.endswith('_after')
         auth = request.headers.get('authorization')
         if op == 'authorize':
+            for _ in range(self.authorize_delay):
+                await asyncio.sleep(0)
             self.ntok += 1
             tok = f'acct-token-{self.ntok}'
             self.tokens = {tok}        # a new authorisation supersedes the previous one
             resp = self._json(200, {'accountId': 'acct', 'authorizationToken': tok, 'apiUrl': self.API, 'downloadUrl': self.DL,
-                                    'allowed': {'bucketId': None, 'bucketName': None, 'capabilities': ['all'], 'namePrefix': None}})
+                                    'allowed': {'bucketId': self.bucket_id if self.restricted else None,
+                                                'bucketName': self.bucket_name if self.restricted else None,
+                                                'capabilities': ['all'], 'namePrefix': None}})
         elif op == 'upload':
             try:
                 body = await self._read_body(request, fault)
@@ -382,6 +392,8 @@ class FakeB2(_FakeBase):
             body = json.loads((await self._read_body(request, None)) or b'{}')
             if auth not in self.tokens:
                 resp = self._error(401, 'expired_auth_token')
+            elif op != 'list_buckets' and body.get('bucketId') != self.bucket_id:
+                resp = self._error(400, 'bad_bucket_id')
             elif op == 'list_buckets':
                 resp = self._json(200, {'buckets': [{'bucketId': 'bkt-other', 'bucketName': 'some-other-bucket'},
                                                     {'bucketId': self.bucket_id, 'bucketName': self.bucket_name}]})
